@@ -193,6 +193,19 @@ theorem raised_are_marked (m : Machine) (u : UEnv) (e : Ev) (s : St) : ∀ q ∈
   have : raisedBy m u e s = added := by unfold raisedBy; rw [hq]; simp
   rw [this]; exact hm
 
+/-- *a macrostep that FAILS (the error escapes the sync call) loses nothing that was accepted*: the drain stops
+    there, and what it leaves queued is exactly what was queued behind the failing event — external events and
+    events raised by EARLIER, completed macrosteps of the same drain alike, in order — followed by what the failing
+    macrostep itself had raised before it failed. The next `send()` drains them first. -/
+theorem failed_macrostep_keeps_the_rest_queued (m : Machine) (u : UEnv) (fuel c : Nat) (s : St) (q : QEv) (rest : List QEv)
+    (hq : s.queue = q :: rest) (hrun : s.status = "running") (ht : syncTrips m c q = false)
+    (hfail : (syncMacro m u q.ev { s with queue := rest }).err.isSome = true) :
+    drainLoop m u (fuel + 1) c s = syncMacro m u q.ev { s with queue := rest } ∧
+    (drainLoop m u (fuel + 1) c s).queue = rest ++ raisedBy m u q.ev { s with queue := rest } := by
+  have h := (drain_pops_head m u fuel c s q rest hq hrun ht).1
+  rw [if_pos hfail] at h
+  exact ⟨h, by rw [h]; exact (raised_after_current m u q.ev q { s with queue := rest }).1⟩
+
 /-! ## 3. run to completion: what a drain writes -/
 
 /-- **a drain's contribution to the trace is the concatenation, per dequeued event and in dequeue order,
@@ -614,6 +627,30 @@ theorem sendMany_differs_from_sends :
       ["#recv:A", "tA@A", "#t:m,m.a", "#recv:B", "tB@B", "#t:m,m.a", "#recv:R", "tR@R", "#t:m,m.a"] ∧
     tr0 (opSend .sync roomyM exB (.user "B") (opSend .sync roomyM exB (.user "A") (started .sync roomyM))) =
       ["#recv:A", "tA@A", "#t:m,m.a", "#recv:R", "tR@R", "#t:m,m.a", "#recv:B", "tB@B", "#t:m,m.a"] := by decide
+
+namespace Ex
+/-- as `exB`, but the action `boom` has no implementation -/
+def exF : UEnv := { g := fun _ _ _ => .t, a := fun n c _ => if n = "boom" then .missing else exB.a n c "" }
+/-- `A` raises `R`; the transition of `X` runs the missing action `boom` -/
+def failM : Machine :=
+  { id := "m", maxIterations := 10, customIds := [],
+    root := .mk (mkD .compound (some "a")) [
+      ("a", .mk (mkD .atomic none none []
+        [("A", [tr 0 "A" [{ type := "tA" }, raiseR]]), ("X", [tr 1 "X" [{ type := "boom" }]]),
+         ("R", [tr 2 "R" [{ type := "tR" }]])]) [])] }
+end Ex
+
+/-- `failed_macrostep_keeps_the_rest_queued` at work (its hypotheses are satisfiable): `send_events([A, X])` — the
+    macrostep of `A` completes and raises `R`, the macrostep of `X` fails (`ImplementationMissingError` escapes the
+    call): the interpreter is still running, `R` is STILL QUEUED (marked), and the next `send(A)` (the error of the
+    previous call is the caller's, the driver clears it) handles `R` first, then `A`, then the `R` that `A` raised -/
+theorem failed_macrostep_example :
+    let l1 := opSendMany .sync failM exF [.user "A", .user "X"] (opStart .sync failM exF (LSt.new failM))
+    l1.st.err.isSome = true ∧ l1.st.status = "running" ∧ l1.st.queue.map (fun q => (q.ev.type, q.self)) = [("R", true)] ∧
+    tr0 l1 = ["#recv:A", "tA@A", "#t:m,m.a", "#recv:X"] ∧
+    tr0 (opSend .sync failM exF (.user "A") { l1 with st := { l1.st with err := none } }) =
+      ["#recv:A", "tA@A", "#t:m,m.a", "#recv:X", "#recv:R", "tR@R", "#t:m,m.a", "#recv:A", "tA@A", "#t:m,m.a",
+       "#recv:R", "tR@R", "#t:m,m.a"] := by decide
 
 /-! ## 6. the re-entrancy flag under two threads (`XSM.SyncFlag`, statement granularity) -/
 
